@@ -151,9 +151,13 @@ bool config_parser::reset()
 	if (!_fn || !f) {
 		return false;
 	}
-	if (!(f = freopen(_fn, "r", f))) {
+	/* open first: a failed freopen() would leave a closed stream behind */
+	FILE *next;
+	if (!(next = fopen(_fn, "r"))) {
 		return false;
 	}
+	fclose(f);
+	_d.src.arg  = next;
 	_d.src.line = 0;
 	return true;
 }
